@@ -4,7 +4,8 @@
    iterators).  Specification: the quad set of Base/Quads.v. *)
 From RV Require Import Store.Model Store.IndexProofs Store.SimpleProofs Store.MemProofs Store.GraphProofs
                        Store.Iter Store.IterProofs Store.Reads Store.ReadsProofs
-                       Store.StoreLevel Store.StoreLevelProofs.
+                       Store.StoreLevel Store.StoreLevelProofs Store.SimpleIter Store.SimpleIterProofs
+                       Store.TransitiveGraph.
 
 (* ------------------------------------------------------------------ *)
 (* SimpleMemory                                                        *)
@@ -134,10 +135,14 @@ Print Assumptions C01_spec_bin_reading.
    interleaving is where finding F10b lived).  For a graph of the Memory store that the
    interleaved loop sees exactly that list is proved below (C01_memory_iteration_is_snapshot,
    on the generator model of Store/Iter.v).  For a graph of a SimpleMemory store (key lists
-   snapshotted per loop level since 239260dc) and for Memory.remove's own walk over
-   partially bound patterns it is a modelling assumption (MA2/MA4), tied by the histories
-   suite only (aliased and same-store `+=`/`-=` cases, the F10b corpus witness, the
-   seeded change C01-r3-3). *)
+   snapshotted per loop level since 239260dc) the unconditional statement is false
+   (C01_simple_iteration_snapshot_refuted) but it holds under the condition [si_chain]
+   (C01_simple_iteration_chain), which is proved for the three loops that occur: store not
+   written during the loop (C01_simple_iteration_const: operand in another store, binary
+   operators), `g -= g` (C01_simple_isub_interleaved) and `g += g`
+   (C01_simple_iadd_interleaved), on the generator model of Store/SimpleIter.v.  What
+   remains a modelling assumption (MA2) is Memory.remove's own walk over partially bound
+   patterns, tied by the histories / storelevel suites only. *)
 Theorem C01_iadd : forall c w S g h,
   Rel c w S -> Rel c (g_iadd w g h) (sp_add_all (scid c g) (sp_content S (scid c h)) S).
 Proof. exact Rel_iadd. Qed.
@@ -384,3 +389,101 @@ Theorem C01_store_step : forall st simple s o,
   TRel st simple s -> TRel (t_step st o) simple (tspec_step simple s o).
 Proof. exact TRel_step. Qed.
 Print Assumptions C01_store_step.
+
+(* ------------------------------------------------------------------ *)
+(* `for t in g` on a SimpleMemory store while the store is mutated
+   (Store/SimpleIter.v: the generator SimpleMemory.triples((None,None,None)) with the
+   three key-list snapshots the code takes since 239260dc)              *)
+
+(* the condition: if no step of the loop body changes what is still to come
+   ([si_chain]), the loop variable takes exactly the values of the list computed up front *)
+Theorem C01_simple_iteration_chain : forall ms m st,
+  si_chain m ms st -> length (m :: ms) = length (si_rem (s_spo m) st) ->
+  si_drive (m :: ms) st = si_rem (s_spo m) st.
+Proof. exact drive_chain. Qed.
+Print Assumptions C01_simple_iteration_chain.
+
+(* store unchanged during the loop (the iterated graph lives in another store than the
+   one written to; or the body re-adds what is there): the list computed up front *)
+Theorem C01_simple_iteration_const : forall m n,
+  sm_inv m -> S n = length (sm_triples m all_pat) ->
+  si_drive (repeat m (S n)) (si_start m) = sm_triples m all_pat.
+Proof. exact simple_iteration_const. Qed.
+Print Assumptions C01_simple_iteration_const.
+
+(* `g -= g` / two graphs of one SimpleMemory store (the region of former finding F10b):
+   every step removes the triple just yielded from the dicts being walked, and still
+   the loop variable takes exactly the values of the list computed up front *)
+Theorem C01_simple_isub_interleaved : forall m fuel,
+  sm_inv m -> length (sm_triples m all_pat) < fuel ->
+  fst (si_isub fuel m (si_start m)) = sm_triples m all_pat.
+Proof. exact simple_isub_interleaved. Qed.
+Print Assumptions C01_simple_isub_interleaved.
+
+(* the unconditional snapshot statement (true of Memory, C01_memory_iteration_is_snapshot)
+   is FALSE of SimpleMemory: a triple added to a bucket not yet reached is yielded *)
+Theorem C01_simple_iteration_snapshot_refuted :
+  exists m0 m1, sm_inv m0 /\
+    In (2, 3, 6)%N (si_drive [m0; m1; m1] (si_start m0)) /\ ~ In (2, 3, 6)%N (sm_triples m0 all_pat).
+Proof. exact simple_iteration_snapshot_refuted. Qed.
+Print Assumptions C01_simple_iteration_snapshot_refuted.
+
+(* ------------------------------------------------------------------ *)
+(* Graph.transitive_objects / transitive_subjects (Store/Transitive.v,
+   Store/TransitiveGraph.v): the recursion with its shared `remember` dict *)
+
+(* the walk itself, over any successor function and any finite universe closed under
+   it: with recursion depth beyond the number of nodes it visits exactly the nodes
+   reachable from the start (start included), each once - cycles included *)
+Theorem C01_dfs_exact : forall (succ : N -> list N) (U : list N),
+  (forall u, In u U -> forall y, In y (succ u) -> In y U) ->
+  forall x fuel, In x U -> length U < fuel ->
+  NoDup (dfs succ fuel x []) /\ forall z, In z (dfs succ fuel x []) <-> reach succ x z.
+Proof. exact dfs_exact. Qed.
+Print Assumptions C01_dfs_exact.
+
+(* on every graph of every history: transitive_objects(x, p) yields exactly the nodes
+   reachable from x along the p-edges (p = None: any edge) of the graph's SET of
+   triples, each once; the depth the model uses suffices for every graph *)
+Theorem C01_transitive_objects_exact : forall c w S g, Rel c w S -> forall pp x,
+  NoDup (g_transitive_objects w g x pp)
+  /\ forall z, In z (g_transitive_objects w g x pp) <-> reach (e_succ_o (sp_content S (scid c g)) pp) x z.
+Proof. exact g_transitive_objects_exact. Qed.
+Print Assumptions C01_transitive_objects_exact.
+
+Theorem C01_transitive_subjects_exact : forall c w S g, Rel c w S -> forall pp x,
+  NoDup (g_transitive_subjects w g pp x)
+  /\ forall z, In z (g_transitive_subjects w g pp x) <-> reach (e_succ_s (sp_content S (scid c g)) pp) x z.
+Proof. exact g_transitive_subjects_exact. Qed.
+Print Assumptions C01_transitive_subjects_exact.
+
+(* THE TIE for the transitive suite *)
+Theorem C01_transitive_spec_ok_model : forall c, trwfb c = true -> trspec_ok c (trmodel_obs c) = true.
+Proof. exact trspec_ok_model. Qed.
+Print Assumptions C01_transitive_spec_ok_model.
+
+(* transitiveClosure(func, x) for any successor function: as a multiset, the successors
+   of every node reachable from x - a node is yielded once per edge from a reachable
+   node, the start only if it lies on a cycle *)
+Theorem C01_transitiveClosure_walk_exact : forall (succ : N -> list N) (U : list N) x fuel,
+  (forall u, In u U -> forall y, In y (succ u) -> In y U) -> In x U -> length U < fuel ->
+  Permutation.Permutation (fst (tc succ fuel x [])) (flat_map succ (dfs succ fuel x []))
+  /\ forall z, In z (fst (tc succ fuel x [])) <-> exists y, reach succ x y /\ In z (succ y).
+Proof. exact tc_exact. Qed.
+Print Assumptions C01_transitiveClosure_walk_exact.
+
+(* ... on every graph of every history, with func = the objects of p *)
+Theorem C01_transitiveClosure_exact : forall c w S g, Rel c w S -> forall pp x,
+  let E := sp_content S (scid c g) in
+  Permutation.Permutation (g_tclosure w g x pp) (flat_map (e_succ_o E pp) (dfs (e_succ_o E pp) (e_depth E) x []))
+  /\ forall z, In z (g_tclosure w g x pp) <-> exists y, reach (e_succ_o E pp) x y /\ In z (e_succ_o E pp y).
+Proof. exact g_tclosure_exact. Qed.
+Print Assumptions C01_transitiveClosure_exact.
+
+(* `g += g` / two graphs of one SimpleMemory store, interleaved: the loop variable takes
+   exactly the values of the list computed up front and the store is unchanged *)
+Theorem C01_simple_iadd_interleaved : forall m fuel,
+  sm_inv m -> length (sm_triples m all_pat) < fuel ->
+  si_iadd fuel m (si_start m) = (sm_triples m all_pat, m).
+Proof. exact simple_iadd_interleaved. Qed.
+Print Assumptions C01_simple_iadd_interleaved.
